@@ -83,7 +83,7 @@ impl Part for OpsPart {
         (c06_setup(), c06_setup(), proptest::collection::vec(mop, 1..p.max_len)).prop_map(|(a, b, ops)| MultiCase { a, b, ops }).boxed()
     }
     fn cases(&self, tier: Tier) -> u64 {
-        tier.pick(30_000, 1_500_000)
+        tier.pick(60_000, 1_500_000)
     }
     fn exec(&self, case: &MultiCase, out: &mut CaseOut) -> Result<(), Fail> {
         exec_multi(case, out)
